@@ -167,6 +167,10 @@ class FnSpec:
         self.assertmacro = False  # R-PANIC for `assert!(E)`: `{ let __aN = E; proof { assert(__aN); } }`
         self.pretailproof = None  # proof text placed in front of the tail expression
         self.tailproof = None  # proof text placed between the bound tail expression and the return (R-TAILBIND)
+        self.foreachs = {}  # closure n -> (container expr, invariant text)   (R-FOREACH)
+        self.foldloops = {}  # closure n -> (container expr, invariant text)   (R-FOLD)
+        self.ats = []  # (arm pattern prefix, anchor text, 'before'|'after', ghost text): ghost text spliced at a statement boundary
+        self.orguard = False  # R-ORGUARD: `A | B if G => X` => `A if G => X, B if G => X`
 
 
 def parse_tags(s):
@@ -377,6 +381,12 @@ class Generator:
                     spec.fmloopproofs[cur[1]] = text
                 elif k == "tailproof":
                     spec.tailproof = text
+                elif k == "foreach":
+                    spec.foreachs[cur[1][0]] = (cur[1][1], text)
+                elif k == "foldloop":
+                    spec.foldloops[cur[1][0]] = (cur[1][1], text)
+                elif k == "at":
+                    spec.ats.append(cur[1] + (text,))
                 elif k == "pretailproof":
                     spec.pretailproof = text
                 cur = None
@@ -479,6 +489,21 @@ class Generator:
                         cur = ("retainloop", (int(m.group(1)), m.group(2)), None)
                     elif cmd == "retainproof":
                         cur = ("retainproof", int(arg), None)
+                    elif cmd in ("foreach", "foldloop"):
+                        # foldloop takes the accumulator's type as a third argument (the invariant mentions it before inference is done)
+                        m = re.match(r'(\d+)\s+"([^"]*)"(?:\s+"([^"]*)")?\s*$', arg)
+                        if not m:
+                            raise RuntimeError("bad %s directive: %r" % (cmd, d))
+                        cur = (cmd, (int(m.group(1)), (m.group(2), m.group(3)) if cmd == "foldloop" else m.group(2)), None)
+                    elif cmd == "at":
+                        # optional `k/N`: the k-th of exactly N occurrences of the anchor in the arm
+                        m = re.match(r'"((?:[^"\\]|\\.)*)"\s+"((?:[^"\\]|\\.)*)"\s+(before|after)(?:\s+(\d+)/(\d+))?\s*$', arg)
+                        if not m:
+                            raise RuntimeError("bad at directive: %r" % d)
+                        un = lambda t: t.replace('\\"', '"')
+                        cur = ("at", (un(m.group(1)), un(m.group(2)), m.group(3), (int(m.group(4)), int(m.group(5))) if m.group(4) else (1, 1)), None)
+                    elif cmd == "orguard":
+                        spec.orguard = True
                     elif cmd == "fmloop":
                         cur = ("fmloop", int(arg), None)
                     elif cmd == "fmloopproof":
@@ -756,13 +781,12 @@ class Generator:
         # R-RETAIN: `X.retain(|p| BODY)` => the predicate evaluated on every item in order, then the flagged items kept
         for n, (cont, inv) in spec.retainloops.items():
             c, call = clos_call(n)
-            if call["name"] != "retain" or len(call["args"]) != 1 or len(c["params"]) != 1 or c["params"][0]["ident"] is None or c["params"][0]["refdepth"] != 0:
+            if call["name"] != "retain" or len(call["args"]) != 1 or len(c["params"]) != 1 or c["params"][0]["refdepth"] != 0 or c["params"][0]["wild"]:
                 raise Undecided("retainloop: closure %d is not the argument of `.retain(|p| …)`" % n)
             if re.sub(r"\s+", "", src[call["recv"][0]:call["recv"][1]].decode()) != re.sub(r"\s+", "", cont):
                 raise Undecided("retainloop: the receiver is not `%s`" % cont)
-            if not c["body_is_block"]:
-                raise Undecided("retainloop: closure body is not a block")
-            pv = c["params"][0]["ident"]
+            # the parameter may be a pattern (`|(tag, _)|`): it is bound by the `let` that hands the item to the body
+            pv = src[c["params"][0]["span"][0]:c["params"][0]["span"][1]].decode()
             pre = ("{ let mut __mask = RetainMask::new(); let mut __k: usize = 0; while __k < %s.len()\n%s\n{ let %s = %s.nth_ref(__k); let __b: bool = " % (cont, inv, pv, cont))
             suf = (";\n proof {\n%s\n } __mask.push(__b); __k += 1; }\n %s.retain_mask(__mask); }" % (spec.retainproofs.get(n, ""), cont))
             common.append((call["span"][0], c["body"][0], pre))
@@ -792,7 +816,10 @@ class Generator:
                 """-> (pattern text for the match arm, let-prefix for the arm body)"""
                 prm = c["params"][k]
                 if prm["ident"] is None:
-                    raise Undecided("optcomb: closure %d parameter is not `&*ident`" % n)
+                    # any other pattern (a tuple): bound by a `let` in front of the inlined body
+                    if prm["refdepth"] != 0 or prm["wild"]:
+                        raise Undecided("optcomb: closure %d parameter pattern is outside R-OPTCOMB" % n)
+                    return "__o%d" % n, "let %s = __o%d; " % (src[prm["span"][0]:prm["span"][1]].decode(), n)
                 if prm["refdepth"] == 0:
                     return prm["ident"], ""
                 return "__o%d" % n, "let %s = %s__o%d; " % (prm["ident"], "*" * prm["refdepth"], n)
@@ -818,6 +845,79 @@ class Generator:
             else:
                 raise Undecided("optcomb: `.%s` with this shape is outside R-OPTCOMB" % nm)
             self.log.append({"rule": "R-OPTCOMB", "site": site, "what": "`.%s(closure %d)` inlined as %s" % (nm, n, "if/else" if nm == "then" else "match")})
+        # R-FOREACH: `X.iter_mut().for_each(|PAT| BODY)` => index loop handing out `&mut` to every item in order
+        def split_top(txt):
+            """`(a, (b, c))` -> ['a', '(b, c)'] (top-level commas of a parenthesised tuple pattern)"""
+            t = txt.strip()
+            if not (t.startswith("(") and t.endswith(")")):
+                return None
+            t = t[1:-1]
+            parts, depth, cur0 = [], 0, ""
+            for ch in t:
+                if ch in "([{":
+                    depth += 1
+                elif ch in ")]}":
+                    depth -= 1
+                if ch == "," and depth == 0:
+                    parts.append(cur0.strip()); cur0 = ""
+                else:
+                    cur0 += ch
+            if cur0.strip():
+                parts.append(cur0.strip())
+            return parts
+        def chain_recv(call, names):
+            """the receiver of `call` must be the method chain `.names[0]().names[1]()…` (no arguments); -> text of the root receiver"""
+            cur_span = call["recv"]
+            for nm in reversed(names):
+                nxt = next((x for x in it["calls"] if x["span"] == cur_span and x["name"] == nm and not x.get("args")), None)
+                if nxt is None:
+                    return None
+                cur_span = nxt["recv"]
+            return re.sub(r"\s+", "", src[cur_span[0]:cur_span[1]].decode())
+        for n, (cont, inv) in spec.foreachs.items():
+            c, call = clos_call(n)
+            if call["name"] != "for_each" or len(call["args"]) != 1 or len(c["params"]) != 1 or chain_recv(call, ["iter_mut"]) != re.sub(r"\s+", "", cont):
+                raise Undecided("foreach: closure %d is not the argument of `%s.iter_mut().for_each(…)`" % (n, cont))
+            pat = src[c["params"][0]["span"][0]:c["params"][0]["span"][1]].decode()
+            kv = "__k%d" % n
+            common.append((call["span"][0], c["body"][0], "{ let mut %s: usize = 0; while %s < %s.len()\n%s\n{ let %s = %s.nth_mut(%s); " % (kv, kv, cont, inv, pat, cont, kv)))
+            common.append((c["body"][1], call["span"][1], "; %s += 1; } }" % kv))
+            self.log.append({"rule": "R-FOREACH", "site": site, "what": "`%s.iter_mut().for_each(closure %d)` => index loop over `%s` (nth_mut hands out the items front to back)" % (cont, n, cont)})
+        # R-FOLD: `X.iter_mut().enumerate().fold(INIT, |ACC, (IDX, PAT)| BLOCK)` => index loop with the accumulator in a variable
+        for n, ((cont, accty), inv) in spec.foldloops.items():
+            c, call = clos_call(n)
+            if call["name"] != "fold" or len(call["args"]) != 2 or len(c["params"]) != 2 or not c["body_is_block"] or chain_recv(call, ["iter_mut", "enumerate"]) != re.sub(r"\s+", "", cont):
+                raise Undecided("foldloop: closure %d is not the argument of `%s.iter_mut().enumerate().fold(init, …)`" % (n, cont))
+            acc = src[c["params"][0]["span"][0]:c["params"][0]["span"][1]].decode()
+            if not re.match(r"^(mut\s+)?\w+$", acc):
+                raise Undecided("foldloop: the accumulator parameter `%s` is not a variable" % acc)
+            parts = split_top(src[c["params"][1]["span"][0]:c["params"][1]["span"][1]].decode())
+            if parts is None or len(parts) != 2:
+                raise Undecided("foldloop: the item parameter is not a pair pattern `(index, item)`")
+            init = src[call["args"][0][0]:call["args"][0][1]].decode()
+            kv, av = "__k%d" % n, "__acc%d" % n
+            common.append((call["span"][0], c["body"][0], "({ let mut %s%s = %s; let mut %s: usize = 0; while %s < %s.len()\n%s\n{ let %s = %s; let %s = %s; let %s = %s.nth_mut(%s); %s = " % (av, (": " + accty) if accty else "", init, kv, kv, cont, inv, acc, av, parts[0], kv, parts[1], cont, kv, av)))
+            common.append((c["body"][1], call["span"][1], "; %s += 1; } %s })" % (kv, av)))
+            self.log.append({"rule": "R-FOLD", "site": site, "what": "`%s.iter_mut().enumerate().fold(%s, closure %d)` => index loop, accumulator `%s`" % (cont, init, n, av)})
+        # ghost text at a statement boundary inside a match arm (anchor: the first arm whose pattern starts with the prefix + a text unique in that arm)
+        for prefix, anchor, where, (occ_k, occ_n), text in spec.ats:
+            norm = lambda t: re.sub(r"\s+", " ", t).strip()
+            if prefix == "":
+                arm = {"body": it["body"]}  # no arm named: the anchor is looked for in the whole function body
+            else:
+                arm = next((a for a in it.get("arms", []) if norm(src[a["pat"][0]:a["pat"][1]].decode()).startswith(norm(prefix))), None)
+            if arm is None:
+                raise Undecided("at: no match arm `%s…` (lost anchor)" % prefix)
+            btxt = src[arm["body"][0]:arm["body"][1]].decode()
+            # anchors are compared modulo runs of white space
+            pat = r"\s+".join(re.escape(w) for w in anchor.split())
+            hits = [m for m in re.finditer(pat, btxt)]
+            if len(hits) != occ_n:
+                raise Undecided("at: anchor `%s` found %d times in arm `%s…`, expected %d (lost anchor)" % (anchor, len(hits), prefix, occ_n))
+            hit = hits[occ_k - 1]
+            boff = len(btxt[:hit.start() if where == "before" else hit.end()].encode())
+            pos = arm["body"][0] + boff
+            common.append((pos, pos, "\n" + text + "\n"))
         # R-CLOSPAT: a `&ident` closure parameter becomes a typed variable plus `let ident = *var;` (Verus wants plain variables)
         for (n, k), (var, ty) in spec.closparams.items():
             if n < 1 or n > len(it["closures"]) or k >= len(it["closures"][n - 1]["params"]):
@@ -875,6 +975,24 @@ class Generator:
         if unspliced_loops and not spec.external:
             raise Undecided("loop(s) %s without invariant" % unspliced_loops)
 
+        if spec.orguard and not spec.external:
+            n_or = 0
+            for a in it.get("arms", []):
+                if len(a["alts"]) < 2 or a["guard"] is None:
+                    continue
+                a_s, a_e = a["span"]
+                inner = [e for e in common if e[0] >= a["body"][0] and e[1] <= a["body"][1]]
+                crossing = [e for e in common if e not in inner and not (e[1] <= a_s or e[0] >= a_e)]
+                if crossing:
+                    raise Undecided("orguard: an edit crosses the arm boundary")
+                common = [e for e in common if e not in inner]
+                btxt = apply_edits(src, a["body"][0], a["body"][1], inner, spec.subs, self.log, site, body_subs=body_subs, body_start=it["body"][0])
+                gtxt = apply_edits(src, a["guard"][0], a["guard"][1], [], spec.subs, [], site)
+                rep = "".join("%s if %s => %s,\n" % (apply_edits(src, al[0], al[1], [], spec.subs, [], site), gtxt, btxt) for al in a["alts"])
+                common.append((a_s, a_e, rep))
+                n_or += 1
+            if n_or:
+                self.log.append({"rule": "R-ORGUARD", "site": site, "what": "`A | B if G => X` => one arm per alternative, same guard and body", "count": n_or})
         body_s, body_e = it["body"]
         s, e = it["span"]
         if spec.external and (spec.cases or any(t is not None for t, _ in spec.ensures)):
